@@ -29,7 +29,7 @@ mod verif_l2_records_srt {
         }
     }
 
-    //@ob id=L2.record.srt.14 flags=noassert props=C03,C05,C06,C11,C19 tier=quick kind=harness fns=downlink/short.rs:Srt::update draw=frame14
+    //@ob id=L2.record.srt.14 flags=noassert props=C03,C05,C06,C11,C19,C01 tier=quick kind=harness fns=downlink/short.rs:Srt::update draw=frame14
     //@region Srt::from_message for all 56-bit frames: df, address, and exactly the one field the format carries (DF4 altitude, DF5 squawk, DF11 CA)
     #[kani::proof]
     #[kani::unwind(90)]
